@@ -195,9 +195,9 @@ theorem named_controlled_default :
 both with the bodies the model mirrors (whitespace-free source text) -/
 theorem combinator_bodies :
     Gen.conjCombinators =
-      [("Composite", "self.ops.iter().all(|op|op.gate.is_stabilizer())", "conjugate"),
+      [("Composite", "all-subgates-claim", "conjugate"),
        ("C", "default-false", "default-error"),
-       ("Kron", "self.g0.is_stabilizer()&&self.g1.is_stabilizer()", "conjugate"),
-       ("Loop", "self.body.is_stabilizer()", "conjugate")] := by decide +kernel
+       ("Kron", "g0-and-g1-claim", "conjugate"),
+       ("Loop", "body-claims", "conjugate")] := by decide +kernel
 
 end Q1t.Proofs.ConjPrim
